@@ -232,7 +232,8 @@ class Expander:
         if e is None or at is None or depth > self.max_depth:
             return copy.deepcopy(e)
         path = attr_path(e) if isinstance(e, (ast.Name, ast.Attribute)) else None
-        if path is not None and isinstance(getattr(e, 'ctx', ast.Load()), ast.Load) and path not in stop:
+        if path is not None and isinstance(getattr(e, 'ctx', ast.Load()), ast.Load) and path not in stop \
+                and path not in self._mutated_names():
             d = self.flow.unique_def(path, at)
             if d is not None and d.kind == 'assign' and d.value is not None and id(d) not in seen and d.node is not at:
                 # the definition must dominate the use (no path bypassing it): unique reaching def guarantees it
@@ -299,6 +300,27 @@ class Expander:
                         x, (ast.cmpop, ast.expr_context)) else x for x in v])
             return new
         return e
+
+    _MUTATORS = {'append', 'extend', 'insert', 'remove', 'pop', 'clear', 'sort', 'reverse', 'add', 'discard', 'update', 'setdefault',
+                 'popitem', '__setitem__', '__delitem__'}
+
+    def _mutated_names(self):
+        """local names whose container value is changed in place somewhere in the function: their defining expression is only
+        the INITIAL value, so they are kept as opaque atoms"""
+        m = getattr(self, '_mut_cache', None)
+        if m is None:
+            m = set()
+            for n in ast.walk(self.func.node):
+                if isinstance(n, ast.Call) and isinstance(n.func, ast.Attribute) and n.func.attr in self._MUTATORS and \
+                        isinstance(n.func.value, ast.Name):
+                    m.add(n.func.value.id)
+                elif isinstance(n, (ast.Assign, ast.AugAssign, ast.Delete)):
+                    tg = n.targets if isinstance(n, (ast.Assign, ast.Delete)) else [n.target]
+                    for t in tg:
+                        if isinstance(t, ast.Subscript) and isinstance(t.value, ast.Name):
+                            m.add(t.value.id)
+            self._mut_cache = m
+        return m
 
     def _xfunc(self, fn, at, depth, seen, stop):
         if isinstance(fn, ast.Attribute):
